@@ -1,14 +1,18 @@
 ---------------------------- MODULE UnitsKernels ----------------------------
 (* C07: a state machine over the unit x dtype grid of one kernel.  A state is a kernel with  *)
 (* a unit and a dtype chosen for every operand; Reexpress changes the unit of one operand     *)
-(* (the physical scenario P stays the same), Retype changes the dtype of one operand.        *)
+(* (the physical scenario P stays the same), Retype changes the dtype of one operand,        *)
+(* Reshape (hardening round, enabled by WithShapes) hands a data operand over as a 0-d        *)
+(* variable instead of an array or back: neither output unit nor precision class may change.  *)
 EXTENDS UnitsKernelsDefs, TLC
 
 CONSTANTS TimeUnits, LengthUnits, EnergyUnits, AngleUnits, AccelUnits, InvLengthUnits,
-          DTypeSet, Kernels, Bug
+          DTypeSet, Kernels, Bug,
+          WithShapes     \* BOOLEAN: explore the shapes of the data operands as well
 
-VARIABLES k, U, D
-vars == <<k, U, D>>
+VARIABLES k, U, D,
+          Z              \* the data operands currently handed over as 0-d variables
+vars == <<k, U, D, Z>>
 
 UnitsOfFam(f) == CASE f = "time" -> TimeUnits [] f = "length" -> LengthUnits
                    [] f = "energy" -> EnergyUnits [] f = "angle" -> AngleUnits
@@ -26,21 +30,28 @@ P0(kk) == [a \in ArgSet(kk) |->
 Init == /\ k \in Kernels
         /\ U = [a \in ArgSet(k) |-> CanonUnit(ArgFam[a])]
         /\ D = [a \in ArgSet(k) |-> "float64"]
+        /\ Z = {}
 
 Reexpress(a, u) == /\ a \in ArgSet(k) /\ u \in UnitsOfFam(ArgFam[a]) /\ u # U[a]
-                   /\ U' = [U EXCEPT ![a] = u] /\ UNCHANGED <<k, D>>
+                   /\ U' = [U EXCEPT ![a] = u] /\ UNCHANGED <<k, D, Z>>
 Retype(a, d)    == /\ a \in ArgSet(k) /\ d \in DTypeSet /\ d # D[a]
-                   /\ D' = [D EXCEPT ![a] = d] /\ UNCHANGED <<k, U>>
+                   /\ D' = [D EXCEPT ![a] = d] /\ UNCHANGED <<k, U, Z>>
+Reshape(a)      == /\ WithShapes /\ a \in Kernel[k].data
+                   /\ Z' = (IF a \in Z THEN Z \ {a} ELSE Z \cup {a})
+                   /\ UNCHANGED <<k, U, D>>
 AllUnits == TimeUnits \cup LengthUnits \cup EnergyUnits \cup AngleUnits \cup AccelUnits \cup InvLengthUnits
-Next == \E a \in DOMAIN ArgFam : (\E u \in AllUnits : Reexpress(a, u)) \/ (\E d \in DTypeSet : Retype(a, d))
+Next == \E a \in DOMAIN ArgFam : \/ \E u \in AllUnits : Reexpress(a, u)
+                                 \/ \E d \in DTypeSet : Retype(a, d)
+                                 \/ Reshape(a)
 Spec == Init /\ [][Next]_vars
 
 -----------------------------------------------------------------------------
 Out == OutName(k, U, Bug)
-Res == ResultDType(Kernel[k].data, D, Bug)
+Res == ResultDTypeZ(Kernel[k].data, D, Z, Bug)
 
 TypeOK == /\ k \in KernelNames
           /\ \A a \in ArgSet(k) : UnitFam(U[a]) = ArgFam[a] /\ D[a] \in AllDTypes
+          /\ Z \subseteq Kernel[k].data
 
 (* the documented output unit has the dimension of every term of the documented formula;      *)
 (* internal quantities have their required dimension; sin() only sees angles                   *)
@@ -70,4 +81,6 @@ DTypeRule ==
     /\ Kernel[k].data = {} => Res = "float64"
     /\ (Kernel[k].data # {} /\ \A a \in Kernel[k].data : D[a] = "float32") => Res = "float32"
 DTypeStep == [][ \A a \in ArgSet(k) : (D'[a] # D[a] /\ a \notin Kernel[k].data) => Res' = Res ]_vars
+(* the shape of an operand changes neither the output unit nor the precision class *)
+ShapeStep == [][ Z' # Z => (Out' = Out /\ Res' = Res) ]_vars
 =============================================================================
